@@ -1,4 +1,4 @@
-import TxV.Core.Example
+import TxV.Core.Example2
 /-!
 # C04 — methods execute exactly when called by a running caller
 
@@ -42,7 +42,8 @@ theorem c04_nesting_readyDep {p b : Nat} (hp : p < D.n) (h : nestRel b ∈ (D.bo
 (body 2); in the cycle where `N` is not ready neither `N` nor `K` runs, in the other both run -/
 example : nestRel 4 ∈ (Ex2.D.body 2).rels ∧ cycleEagerB Ex2.D Ex2.v Ex2.S Ex2.run = true ∧
     Ex2.run 4 = true ∧ Ex2.run 2 = true ∧ cycleEagerB Ex2.D Ex2.v' Ex2.S Ex2.run' = true ∧
-    Ex2.v'.ready 4 = true ∧ Ex2.run' 4 = false := by decide
+    Ex2.v'.ready 4 = true ∧ Ex2.run' 4 = false :=
+  ⟨by decide, Ex2.cycleEager, rfl, rfl, Ex2.cycleEager', rfl, rfl⟩
 
 /-- non-vacuity: in the example cycle `M4` runs and has a non-empty active-site list; the example
 design extended by a sixth body (an uncalled method) satisfies the hypotheses of `c04_uncalled` -/
@@ -50,7 +51,8 @@ example : decide Ex.D.WF = true ∧ methodRunB Ex.D Ex.v Ex.run = true ∧ Ex.ru
     activeSites Ex.D Ex.v Ex.run 4 ≠ [] ∧
     (let D' : Design := ⟨Ex.D.bodies ++ [Body.empty]⟩
      methodRunB D' Ex.v Ex.run = true ∧ 5 < D'.n ∧ D'.isTrans 5 = false ∧
-       (D'.allCalls.all fun c => c.callee != 5) = true) := by decide
+       (D'.allCalls.all fun c => c.callee != 5) = true) :=
+  ⟨by decide, Ex.methodRun, rfl, by decide, by decide⟩
 
 end TxV.Core
 
